@@ -247,6 +247,8 @@ class CatModel:
         lane = False
         if cap is not None:
             lo = s.facts.lower(off)
+            if lo < 0:
+                lo = s.facts.lower(off, 2, 0)
             hi_ok = s.facts.le(off.addc(width).sub(cap), 0)
             ok = (lo >= 0) and (hi_ok is True)
             if not ok and lo >= 0 and kind == 'read' and width == 1:
@@ -570,7 +572,7 @@ class CatModel:
             cap = self.region_cap(region, s1, it)
             ok = None
             if cap is not None:
-                ok = s1.facts.lower(off) >= 0 and s1.facts.lower(length) >= 0 and s1.facts.le(off.add(length).sub(cap), 0) is True
+                ok = s1.facts.lower(off, 2, 0) >= 0 and s1.facts.lower(length, 2, 0) >= 0 and s1.facts.le(off.add(length).sub(cap), 0) is True
             s1.ev('ob', n, ob='bound', ok=ok, region=region, off=off, width=length, cap=cap, access='write', via=what)
             s1.ev('wr', n, region=region, off=off, width=length, val=None, via=what)
             outs.append(s1)
@@ -596,7 +598,7 @@ class CatModel:
             cap = self.region_cap(region, s, it)
             ok = None
             if cap is not None:
-                ok = s.facts.lower(off) >= 0 and s.facts.le(off.add(length).sub(cap), 0) is True
+                ok = s.facts.lower(off, 2, 0) >= 0 and s.facts.le(off.add(length).sub(cap), 0) is True
             s.ev('ob', n, ob='bound', ok=ok, region=region, off=off, width=length, cap=cap, access='read', via=what)
             s.ev('rd', n, region=region, off=off, width=length, via=what)
             return
